@@ -57,7 +57,7 @@ REQUIRED_PROBES = ['t==begin', 't==end-1', 't==end'] + \
      'second_hierarchy', 'foreign_witness_verified_under_own_root_first',
      'default_timestamp', 'crafted_witness', 'witness_with_code', 'witness_ending_in_return',
      'crafted_marker', 'chain_len_long', 'clock_read_failed', 'malleated_signature',
-     'transaction_changed_after_signing', 'recut_certificate', 'lock_form_bytes', 'lock_form_resrc', 'lock_form_redec', 'explicit_limits'] + \
+     'transaction_changed_after_signing', 'recut_certificate', 'key_delegates_to_itself', 'lock_form_bytes', 'lock_form_resrc', 'lock_form_redec', 'explicit_limits'] + \
     ['lock_wrapped_' + x for x in sorted(set(WRAPS) - {'none'})]
 NAMES = ['K', 'Kp'] + ['D%d' % i for i in range(1, 7)] + ['F%d' % i for i in range(1, 7)]
 FIELD_RANGE = {'key': (0, 32), 'begin': (32, 36), 'end': (36, 40), 'can': (40, 41),
@@ -79,6 +79,25 @@ def dn(pre, j):
 LONG = [64, 65, 100, 120]       # links; the default callstack_limit of 128 covers them
 LONG_ATTACKS = ('none', 'flip_final_sig', 'flip_marker', 'drop', 'dup', 'nodelegate',
                 'bad_flag', 'crafted')
+
+
+def self_delegating(step, k, run):
+    """One key in two roles: link j of the chain is a certificate a key issues to
+    itself (the root key too); the next link is then issued by that same key.  Applied
+    to whole runs (every 13th), at execution time, so that no plan changes."""
+    if (step.get('attack') or {}).get('kind') in ('splice', 'foreign_witness') or \
+            step['signer'] != step['chain'][-1]['subject']:
+        return step
+    st = copy.deepcopy(step)
+    ch = st['chain']
+    j = k % len(ch)
+    ch[j]['subject'] = ch[j]['issuer']
+    if j + 1 < len(ch):
+        ch[j + 1]['issuer'] = ch[j]['subject']
+    else:
+        st['signer'] = ch[j]['subject']
+    run.probe('key_delegates_to_itself')
+    return st
 
 
 def decode_cell(i):
@@ -383,6 +402,8 @@ def execute(plan, run):
 
     for i, step in enumerate(plan['steps']):
         CLOCK.tau = max(CLOCK.tau, step['at_us'])
+        if plan['idx'] % 13 == 7:
+            step = self_delegating(step, plan['idx'] // 13 + i, run)
         ln = len(step['chain'])
         sf = {k: bytes.fromhex(v) for k, v in step['sigfields'].items()}
         root = step.get('root', 'K')
@@ -539,11 +560,11 @@ def execute(plan, run):
         honest = (not atk and not step.get('suffix') and not clock_failed and
                   not step.get('tx_change') and
                   step['witness'] == step['lock'] and
-                  step['signer'] == dn(pre, ln) and
+                  step['signer'] == step['chain'][-1]['subject'] and
                   all(c['can'] for c in step['chain'][:-1]) and
                   all(c['begin'] <= t < c['end'] for c in step['chain']) and
                   (int(step['flag'], 16) & ~int(step['allowed'], 16) & 0xff) == 0 and
-                  all(c['issuer'] == (root if j == 0 else dn(pre, j))
+                  all(c['issuer'] == (root if j == 0 else step['chain'][j - 1]['subject'])
                       for j, c in enumerate(step['chain'])))
         if honest:
             s3 = slack3(t, reads, step['thr'])
@@ -561,7 +582,7 @@ def execute(plan, run):
             run.check('only_honest_accepted', not inwin,
                       'C14/%s_lock/builder_flow/dishonest_attempt_accepted/%s' % (
                           step['lock'],
-                          'wrong_signer' if step['signer'] != dn(pre, ln) else
+                          'wrong_signer' if step['signer'] != step['chain'][-1]['subject'] else
                           'cross_lock' if step['witness'] != step['lock'] else
                           'nodelegate' if not all(c['can'] for c in step['chain'][:-1]) else
                           'flag' if (int(step['flag'], 16) & ~int(step['allowed'], 16)) else 'other'),
